@@ -22,6 +22,7 @@ class GGen:
     def __init__(self, seed):
         self.r = random.Random(seed)
         self.n = 0
+        self.late = {}
 
     def fresh(self, p):
         self.n += 1
@@ -52,9 +53,10 @@ class GGen:
                     "x": {"e": "cast", "ty": jty(mid), "x": self.texpr(vars_t, has_n, callee, d + 1)}}
         if k < 0.96 and callee:
             name, cn = callee
-            cargs = [{"e": "var", "n": "T"}] + ([{"e": "int", "ty": jty(I32), "b": [r.randrange(0, 4), 0, 0, 0], "plain": True}] if cn else [])
-            return {"e": "call", "f": name, "cargs": cargs,
-                    "args": [self.texpr(vars_t, has_n, None, d + 1), self.texpr(vars_t, has_n, None, d + 1)]}
+            # the callee's constant: this function's own N passed on, or a literal
+            nn = {"e": "var", "n": "N"} if (has_n and r.random() < 0.6) else {"e": "int", "ty": jty(I32), "b": [r.randrange(0, 4), 0, 0, 0], "plain": True}
+            cargs = [{"e": "var", "n": "T"}] + ([nn] if cn else [])
+            return self.call(name, cn, cargs, [self.texpr(vars_t, has_n, None, d + 1), self.texpr(vars_t, has_n, None, d + 1)])
         return {"e": "ifx", "c": {"e": "bin", "op": r.choice(["lt", "ge", "eq"]), "l": self.texpr(vars_t, has_n, None, d + 1),
                                   "r": self.texpr(vars_t, has_n, None, d + 1)},
                 "t": {"e": "blk", "label": "", "ss": [], "tail": self.texpr(vars_t, has_n, None, d + 1)},
@@ -62,6 +64,8 @@ class GGen:
 
     def generic_fn(self, name, has_n, callee):
         r = self.r
+        late = r.random() < 0.5          # a run-time parameter BEFORE the comptime ones
+        self.late[name] = late
         vars_t = ["x", "y"]
         ss = []
         acc = self.fresh("a")
@@ -81,8 +85,24 @@ class GGen:
             ss.append({"s": "if", "c": {"e": "bin", "op": "gt", "l": {"e": "var", "n": "x"}, "r": {"e": "var", "n": "y"}},
                        "t": {"e": "blk", "label": "", "ss": [j], "tail": NONE}, "f": NONE})
         cparams = [{"n": "T", "kind": "type"}] + ([{"n": "N", "kind": "i32"}] if has_n else [])
-        return {"name": name, "cparams": cparams, "params": [{"n": "x", "ty": "T"}, {"n": "y", "ty": "T"}], "ret": "T",
-                "body": {"e": "blk", "label": "", "ss": ss, "tail": self.texpr(vars_t, has_n, callee)}}
+        params = [{"n": "x", "ty": "T"}, {"n": "y", "ty": "T"}]
+        fn = {"name": name, "cparams": cparams, "params": params, "ret": "T",
+              "body": {"e": "blk", "label": "", "ss": ss, "tail": self.texpr(vars_t, has_n, callee)}}
+        if late:
+            fn["params"] = [{"n": "tag", "ty": I32}] + params
+            fn["order"] = self.order_of(name, has_n)
+        return fn
+
+    def order_of(self, name, has_n):
+        """declared parameter order of a generic with late comptime parameters: tag, T, [N], x, y"""
+        return [("p", 0), ("c", 0)] + ([("c", 1)] if has_n else []) + [("p", 1), ("p", 2)]
+
+    def call(self, name, has_n, cargs, args):
+        c = {"e": "call", "f": name, "cargs": cargs, "args": args}
+        if self.late.get(name):
+            c["args"] = [{"e": "int", "ty": jty(I32), "b": [self.r.randrange(200), 0, 0, 0]}] + args
+            c["order"] = self.order_of(name, has_n)
+        return c
 
     def conc_lit(self, t):
         w = t[1]
@@ -113,8 +133,7 @@ class GGen:
         r.shuffle(calls)
         for g, hn, t, n in calls:
             cargs = [{"e": "type", "ty": jty(t)}] + ([{"e": "int", "ty": jty(I32), "b": [n, 0, 0, 0], "plain": True}] if hn else [])
-            ss.append({"s": "print", "ty": t, "x": {"e": "call", "f": g, "cargs": cargs,
-                                                    "args": [self.conc_lit(t), self.conc_lit(t)]}})
+            ss.append({"s": "print", "ty": t, "x": self.call(g, hn, cargs, [self.conc_lit(t), self.conc_lit(t)])})
         # aggregates through the generic identity: copy semantics are kept
         ss.append({"s": "let", "n": "arr_1", "ty": ("arr", 3, I32), "mut": True,
                    "x": {"e": "arr", "elem": I32, "es": [self.conc_lit(I32) for _ in range(3)]}})
